@@ -4,6 +4,7 @@ package props
 
 import (
 	"cmp"
+	"sort"
 	"fmt"
 	"math"
 	"math/rand/v2"
@@ -25,11 +26,11 @@ func init() {
 				Flavours: []string{"plain", "race", "cover"},
 				Blocks:   16,
 				Procs:    16,
-				Rule: "LIS/LNDS: every sequence over alphabet 4 x length <= 8, alphabet 3 x length <= 11 and alphabet 2 x length <= 13 (exhaustive), each under four comparators (natural -1/0/+1, reversed, a 'wide' comparator returning the difference a-b, and one returning MinInt/MaxInt); a structured family of two interleaved ascending runs with run lengths 1..70 and 2^k-1..2^k+1 up to 1024, plus random sequences up to 1500 (5000 thorough) with heavy duplication; " +
-					"LCS/LCSFunc: every pair over alphabet 2 x length <= 7 and alphabet 3 x length <= 5 (exhaustive) plus random pairs up to 300 of very different lengths. " +
+				Rule: "LIS/LNDS: every sequence over alphabet 4 x length <= 8, alphabet 3 x length <= 11 and alphabet 2 x length <= 13 (exhaustive), each under four comparators (natural -1/0/+1, reversed, a 'wide' comparator returning the difference a-b, and one returning MinInt/MaxInt); a structured family of two interleaved ascending runs with run lengths 1..70 and 2^k-1..2^k+1 up to 1024, plus random sequences up to 1500 (5000 thorough) with heavy duplication, and sequences of 32769..131072 elements (length checked against an O(n log n) patience reference); " +
+					"LCS/LCSFunc: every pair over alphabet 2 x length <= 7 and alphabet 3 x length <= 5 (exhaustive) plus random pairs up to 300 of very different lengths and pairs of 4100..11700 elements (length products past 2^24..2^27). " +
 					"Checks: returned elements identify strictly increasing positions of the input (for LCS: of one input, and their values form a subsequence of the other), strict / non-strict order under the comparator used, length == quadratic reference, inputs unmodified; 8 goroutines call LIS/LNDS/LCS concurrently on unshared inputs (plain and under -race), a comparison callback that itself calls LIS (re-entrancy), and LCS instantiated with interface-typed elements; interleaved with all of it, calls that are abandoned half-way (the comparison function panics after m calls and the caller recovers) so that every verified call also runs right after a failed one. " +
 					"distinct = the input (enumerated without repetition; random by hash); non-trivial = the input has a repeated value (ties)",
-				Required:     []string{"lis_inputs", "lnds_inputs", "lcs_pairs", "wide_comparator_inputs", "reversed_comparator_inputs", "lcs_unequal_length_pairs", "structured_two_run_inputs", "concurrent_calls", "reentrant_calls", "interface_element_cases", "abandoned_calls"},
+				Required:     []string{"lis_inputs", "lnds_inputs", "lcs_pairs", "wide_comparator_inputs", "reversed_comparator_inputs", "lcs_unequal_length_pairs", "structured_two_run_inputs", "concurrent_calls", "reentrant_calls", "interface_element_cases", "abandoned_calls", "very_large_inputs"},
 				Exhaustive:   true,
 				Assumptions:  []string{"quadratic DP references for LIS/LNDS/LCS lengths"},
 				CoverPkgs:    []string{"github.com/creachadair/mds/slice"},
@@ -64,6 +65,31 @@ func refLIS(vs []int, cmp func(a, b int) int, strict bool) int {
 		}
 	}
 	return best
+}
+
+// c12ref: the quadratic reference up to 6000 elements, beyond that patience
+// sorting with binary search (the comparator must then be a total preorder,
+// which all four used here are).
+func c12ref(vs []int, cmp func(a, b int) int, strict bool) int {
+	if len(vs) <= 6000 {
+		return refLIS(vs, cmp, strict)
+	}
+	var tails []int
+	for _, v := range vs {
+		i := sort.Search(len(tails), func(i int) bool {
+			d := cmp(tails[i], v)
+			if strict {
+				return d >= 0
+			}
+			return d > 0
+		})
+		if i == len(tails) {
+			tails = append(tails, v)
+		} else {
+			tails[i] = v
+		}
+	}
+	return len(tails)
 }
 
 var c12cmps = []struct {
@@ -155,7 +181,7 @@ func c12seq(c *fw.Ctx, vs []int, ci int) {
 				}
 			}
 		}
-		if want := refLIS(vs, cm.f, strict); len(out) != want {
+		if want := c12ref(vs, cm.f, strict); len(out) != want {
 			c.Fail(caseData, "%s: output has length %d, the optimum is %d", name, len(out), want)
 			return
 		}
@@ -194,7 +220,7 @@ func c12seq(c *fw.Ctx, vs []int, ci int) {
 					return
 				}
 			}
-			if want := refLIS(vs, c12cmps[0].f, strict); len(out) != want {
+			if want := c12ref(vs, c12cmps[0].f, strict); len(out) != want {
 				c.Fail(caseData, "%s: output has length %d, the optimum is %d", name, len(out), want)
 				return
 			}
@@ -620,6 +646,59 @@ func runC12(c *fw.Ctx) {
 			}
 		}
 		idx += n
+	}
+	// very large inputs: LIS/LNDS on 2^16-1..2^16+1 and 100003 elements, LCS on
+	// pairs whose length product passes 2^24, 2^26 and 2^27
+	{
+		lisSizes := []int{65535, 65536, 65537, 100003, 32769, 131072}
+		for k := 0; k < 12; k++ {
+			if k%c.NBlocks != c.Block || !c.Begin(idx+400000+k) {
+				continue
+			}
+			n := lisSizes[k%len(lisSizes)]
+			r := c.Rng()
+			vs := make([]int, n)
+			switch k / len(lisSizes) {
+			case 0:
+				for i := range vs { // ascending runs with dips and ties
+					vs[i] = i/3 + (i%7)*5
+				}
+			default:
+				for i := range vs {
+					vs[i] = r.IntN(n / 4)
+				}
+			}
+			c12seq(c, vs, k%len(c12cmps))
+			c.Add("very_large_inputs", 1)
+			c.Add("lis_inputs", 1)
+			c.Add("lnds_inputs", 1)
+		}
+		lcsSizes := []int{4100, 8200, 11700}
+		for k := 0; k < 6; k++ {
+			if (k+12)%c.NBlocks != c.Block || !c.Begin(idx+400100+k) {
+				continue
+			}
+			n := lcsSizes[k%3]
+			r := c.Rng()
+			a := make([]int, n)
+			for i := range a {
+				a[i] = r.IntN(40)
+			}
+			var b []int
+			if k < 3 { // one of two adjacent identical blocks removed
+				b = append(append([]int(nil), a[:n/2]...), a[n/2+n/8:]...)
+				copy(a[n/2+n/8:], a[n/2:n/2+n/8])
+			} else {
+				b = make([]int, n-n/5)
+				for i := range b {
+					b[i] = r.IntN(40)
+				}
+			}
+			c12lcs(c, a, b)
+			c.Add("very_large_inputs", 1)
+			c.Add("lcs_pairs", 1)
+			c.Add("lcs_unequal_length_pairs", 1)
+		}
 	}
 	if c.Block == 0 && c.Begin(idx+500000) {
 		// nil and empty inputs
